@@ -51,6 +51,32 @@ fn f_leaf(n: usize) -> Vec<RV> {
     v
 }
 
+/// S-all: every string of length <= n over one representative of every character class the
+/// printer distinguishes (plain ASCII, the two mandatory escapes, a short escape, a \u00xx
+/// escape, 2-/3-/4-byte characters, DEL, U+2028) - escapes and multi-byte characters in every
+/// combination, so that byte length, character count and printed width all differ.
+const CLASSES: [&str; 10] = ["a", "\"", "\\", "\n", "\u{1}", "\u{e9}", "\u{20ac}", "\u{1f600}", "\u{7f}", "\u{2028}"];
+
+fn s_all(n: usize) -> Vec<String> {
+    let mut out = vec![String::new()];
+    let mut level = vec![String::new()];
+    for _ in 0..n {
+        let mut next = Vec::new();
+        for s in &level {
+            for c in CLASSES {
+                next.push(format!("{s}{c}"));
+            }
+        }
+        out.extend(next.iter().cloned());
+        level = next;
+    }
+    out
+}
+
+fn string_values(s: &str) -> [RV; 2] {
+    [RV::Str(s.to_string()), RV::Obj(vec![(s.to_string(), RV::Arr(vec![RV::Str(s.to_string()), RV::Null]))])]
+}
+
 fn opts_json(o: &Opts) -> J {
     json!({
         "indent": format!("{:?}", o.indent),
@@ -326,6 +352,34 @@ fn run_product(rep: &mut Report, mode: Mode, tier: Tier) {
         rep.bounds[fname] = json!({"values": n, "max_fields_changed_per_record": max_fields, "records": "3 presets + every record differing from a preset in <= max_fields of the 15 fields (numeric 0..3, 8 indent units, limits None/Always/Item(0..3)/Width(w)/ItemOrWidth(0..2,w) with w straddling the actual one-line widths)"});
         rep.absorb(t);
     }
+    // S-all: strings mixing every character class, as value and as key, under the presets and
+    // every single-field deviation (incl. width thresholds straddling the printed widths)
+    {
+        let strings = s_all(tier.pick(4, 5));
+        let n = strings.len();
+        let t = explore::par_tally(strings.chunks(64).map(|c| c.to_vec()).collect(), |chunk, t| {
+            if budget.expired() {
+                t.outcome("value-skipped:time-cap");
+                return;
+            }
+            for s in chunk {
+                for rv in string_values(&s) {
+                    let real = bridge::to_value(&rv);
+                    for (_, base) in presets() {
+                        for_each_deviation(&rv, &base, 1, &mut |o| check_case(mode, &rv, &real, o, t));
+                    }
+                }
+                t.nontrivial(&("S-all", s));
+                t.states += 1;
+            }
+        });
+        if let Some(sk) = t.hist.get("value-skipped:time-cap") {
+            rep.exhaustive = false;
+            rep.note(format!("S-all: time cap reached, {sk} chunks of 64 strings not covered"));
+        }
+        rep.bounds["S-all"] = json!({"strings": n, "max_length": tier.pick(4, 5), "classes": CLASSES.iter().map(|c| RV::Str(c.to_string()).show()).collect::<Vec<_>>(), "as": ["string value", "object key with the string in an array"]});
+        rep.absorb(t);
+    }
     // thorough: the full {0,1}^12 grid x 3 indents x limits on F-shape size <= 4
     if tier == Tier::Thorough && !budget.expired() {
         let values = f_shape(4);
@@ -457,6 +511,19 @@ fn run_c08(rep: &mut Report, tier: Tier) {
         }
     });
     rep.absorb(t);
+    let strings = s_all(tier.pick(5, 6));
+    let ns = strings.len();
+    let t = explore::par_tally(strings.chunks(256).map(|c| c.to_vec()).collect(), |chunk, t| {
+        for s in chunk {
+            for rv in string_values(&s) {
+                c08_value(&rv, t);
+            }
+            t.nontrivial(&("S-all", s));
+            t.outcome("string over the character classes");
+        }
+    });
+    rep.absorb(t);
+    rep.bounds["S-all"] = json!({"strings": ns, "max_length": tier.pick(5, 6), "classes": CLASSES.len()});
     let vals: Vec<RV> = f_shape(tier.pick(4, 5)).into_iter().chain(f_leaf(tier.pick(2, 3))).collect();
     let n = vals.len();
     let t = explore::par_tally(vals.into_iter().enumerate().collect(), |(i, rv): (usize, RV), t| {
@@ -467,7 +534,7 @@ fn run_c08(rep: &mut Report, tier: Tier) {
     rep.absorb(t);
     rep.tally.sample(json!({"scalar": "U+2028", "printed": bridge::to_value(&RV::Str("\u{2028}".into())).to_string()}));
     rep.tally.sample(json!({"value": RV::Str(NASTY.into()).show(), "printed": bridge::to_value(&RV::Str(NASTY.into())).to_string()}));
-    rep.bounds = json!({"scalars": 1112064, "contexts_per_scalar": 3, "structured_values": n});
+    rep.bounds["scalars"] = json!({"scalars": 1112064, "contexts_per_scalar": 3, "structured_values": n});
 }
 
 fn replay(args: &Args, path: &std::path::Path) -> i32 {
